@@ -662,6 +662,53 @@ static void header_case(uint64_t seed)
     R.sample("header: " + vf::show(header, 160));
 }
 
+// Directed: near-maximal lists (from seeded change C14-w5-1) - 28..32 members whose keys and values are all at or
+// just below the 256-character limits.  Such a header (up to 32 * 513 + 31 = 16447 bytes) is valid: it must parse
+// into exactly its members and ToHeader/FromHeader must reproduce the same ordered list.
+static void near_max_case(uint64_t seed)
+{
+  auto &R = vf::report();
+  Rng r(seed);
+  Gen g(r);
+  size_t n = static_cast<size_t>(r.range(28, 32));
+  List members;
+  std::set<std::string> seen;
+  std::string header;
+  for (size_t i = 0; i < n; ++i)
+  {
+    size_t kl = 256 - static_cast<size_t>(r.below(3)), vl = 256 - static_cast<size_t>(r.below(3));
+    std::string k;
+    do
+    {
+      k = std::string(1, static_cast<char>('a' + r.below(26))) + r.bytes(kl - 1, "abcxyz019_-*/");
+    } while (!seen.insert(k).second);
+    std::string v = g.valid_value(vl);
+    if (v[0] == ' ')
+      v[0] = 'q';
+    members.emplace_back(k, v);
+    header += (i ? "," : "") + k + "=" + v;
+  }
+  vf::Buf hb(header);
+  auto ts = trace_api::TraceState::FromHeader(nostd::string_view(hb.data(), hb.size()));
+  r.coin() ? hb.scribble() : hb.release();
+  List got = entries(*ts);
+  R.count("headers_near_max");
+  if (header.size() > 16384)
+    R.count("headers_near_max_over_16384_bytes");
+  check_members(got, "fromheader");
+  std::string cls = "valid-near-max-" + size_class(members.size());
+  std::string what = "header of " + std::to_string(header.size()) + " bytes, " + std::to_string(n) + " members with keys/values of 254..256 characters";
+  if (got != members)
+    R.violation("fromheader-result", cls, what + " gave " + std::to_string(got.size()) + " members");
+  else
+  {
+    auto back = trace_api::TraceState::FromHeader(ts->ToHeader());
+    if (entries(*back) != members)
+      R.violation("roundtrip", cls, what);
+  }
+  R.nontrivial(vf::fnv1a(header));
+}
+
 int main(int argc, char **argv)
 {
   auto &R = vf::report();
@@ -671,6 +718,8 @@ int main(int argc, char **argv)
     program(R.case_seed(i));
     for (uint64_t j = 0; j < header_per_program; ++j)
       header_case(vf::mix(R.case_seed(i), 1000 + j));
+    if (i % 4 == 0)
+      near_max_case(vf::mix(R.case_seed(i), 77));
   });
   return R.finish();
 }
